@@ -789,7 +789,10 @@ func (s *Sim) mutexName(m *MutexCore) string {
 func (s *Sim) LockMutex(m *MutexCore, read bool) {
 	g := s.G()
 	if s.draining.Load() {
-		return
+		// The run is over and its verdict recorded; goroutines are only being unwound. Nothing
+		// grants mutual exclusion any more, so a goroutine asking for a lock ends here (its
+		// deferred calls still run) instead of entering a critical section next to another.
+		runtime.Goexit()
 	}
 	s.mu.Lock()
 	name := s.mutexName(m)
@@ -805,7 +808,7 @@ func (s *Sim) LockMutex(m *MutexCore, read bool) {
 	s.mu.Unlock()
 	key := "lock:" + name + ":" + g.Label + "#" + strconv.Itoa(g.ops)
 	g.ops++
-	s.Park(&Event{
+	granted := s.Park(&Event{
 		Key:   key,
 		Class: "lock",
 		Enabled: func() bool {
@@ -823,6 +826,9 @@ func (s *Sim) LockMutex(m *MutexCore, read bool) {
 			g.owned++
 		},
 	})
+	if !granted {
+		runtime.Goexit() // released by the drain, not by a grant: see above
+	}
 }
 
 func (s *Sim) TryLockMutex(m *MutexCore) bool {
